@@ -162,7 +162,8 @@ class CoreStub:
                                                 note="core pulsed rdata.valid while the front-end held rdata.ready low"))
                     self.rbeats[i].append((cyc, e["addr"], e["data"], int(bool(rr))))
                     rpulse[i] = None
-                    stmts.append(p.rdata.valid.eq(0))
+                    # the real crossbar broadcasts the controller's read bus to every port: data without valid is garbage
+                    stmts += [p.rdata.valid.eq(0), p.rdata.data.eq(self.rng.getrandbits(len(p.rdata.data)))]
                 # ---- drive: next data phase of this port (in command order)
                 q = self.queues[i]
                 if q:
